@@ -43,17 +43,17 @@ theorem applySteps_body (F : BodyFn) (t : TaskSpec) (w : World) :
 @[simp] theorem stateOf_db (P : Project) (w : World) (d : DB) (v : Nat) : stateOf P { w with db := d } v = stateOf P w v := rfl
 
 theorem rowSteps_db (P : Project) (w : World) (d : DB) (t : Nat) (vs : List Nat) :
-    rowSteps P { w with db := d } t vs = rowSteps P w t vs := by
+    rowStepsEach P { w with db := d } t vs = rowStepsEach P w t vs := by
   induction vs with
   | nil => rfl
-  | cons v vs ih => simp only [rowSteps, stateOf_db, ih]
+  | cons v vs ih => simp only [rowStepsEach, stateOf_db, ih]
 
 theorem applySteps_rows (P : Project) (g : G) (t : Nat) (vs : List Nat) (w : World) :
-    applySteps w (rowSteps P w t vs) = (updateStates P g w t vs).1 := by
+    applySteps w (rowStepsEach P w t vs) = (updateStates P g w t vs).1 := by
   induction vs generalizing w with
   | nil => rfl
   | cons v vs ih =>
-    unfold rowSteps updateStates
+    unfold rowStepsEach updateStates
     cases h : stateOf P w v with
     | none => rfl
     | some x =>
@@ -74,19 +74,19 @@ theorem applySteps_phases (F : BodyFn) (P : Project) (g : G) (cfg : Cfg) (s : Se
       by_cases h2 : (t.prods.any fun p => (lookup (runBody F t s.w.fs).1 p).isNone) = true <;> simp [h1, h2]
 
 theorem reportSteps_none (P : Project) (g : G) (cfg : Cfg) (s : Sess) (t : TaskSpec) :
-    reportSteps P g cfg s t .none = if cfg.dry then [] else rowSteps P s.w t.id (neighbours g t.id) := by
-  unfold reportSteps; rw [recordsOn_none, neighboursBy_eq]; cases cfg.dry <;> rfl
+    reportStepsEach P g cfg s t .none = if cfg.dry then [] else rowStepsEach P s.w t.id (neighbours g t.id) := by
+  unfold reportStepsEach; rw [recordsOn_none, neighboursBy_eq]; cases cfg.dry <;> rfl
 
 theorem reportSteps_persisted (P : Project) (g : G) (cfg : Cfg) (s : Sess) (t : TaskSpec) :
-    reportSteps P g cfg s t .persisted = if cfg.dry then [] else rowSteps P s.w t.id (neighbours g t.id) := by
-  unfold reportSteps; rw [recordsOn_persisted, neighboursBy_eq]; cases cfg.dry <;> rfl
+    reportStepsEach P g cfg s t .persisted = if cfg.dry then [] else rowStepsEach P s.w t.id (neighbours g t.id) := by
+  unfold reportStepsEach; rw [recordsOn_persisted, neighboursBy_eq]; cases cfg.dry <;> rfl
 
 theorem reportSteps_other (P : Project) (g : G) (cfg : Cfg) (s : Sess) (t : TaskSpec) (r : Raised)
-    (h1 : r ≠ .none) (h2 : r ≠ .persisted) : reportSteps P g cfg s t r = [] := by
+    (h1 : r ≠ .none) (h2 : r ≠ .persisted) : reportStepsEach P g cfg s t r = [] := by
   cases r <;> first | exact absurd rfl h1 | exact absurd rfl h2 | rfl
 
 theorem applySteps_report (P : Project) (g : G) (cfg : Cfg) (s : Sess) (t : TaskSpec) (r : Raised) :
-    applySteps s.w (reportSteps P g cfg s t r) = (processReport P g cfg s t r).w := by
+    applySteps s.w (reportStepsEach P g cfg s t r) = (processReport P g cfg s t r).w := by
   cases r
   case none =>
     rw [reportSteps_none]; unfold processReport recordStates
@@ -102,21 +102,21 @@ theorem applySteps_report (P : Project) (g : G) (cfg : Cfg) (s : Sess) (t : Task
   all_goals (rw [reportSteps_other _ _ _ _ _ _ (by simp) (by simp)]; rfl)
 
 theorem applySteps_protocol (F : BodyFn) (P : Project) (g : G) (cfg : Cfg) (s : Sess) (t : TaskSpec) :
-    applySteps s.w (protocolSteps F P g cfg s t) = (protocol F P g cfg s t).w := by
-  unfold protocolSteps protocol
+    applySteps s.w (protocolStepsEach F P g cfg s t) = (protocol F P g cfg s t).w := by
+  unfold protocolStepsEach protocol
   simp only [applySteps_append, applySteps_phases]
   exact applySteps_report P g cfg _ t _
 
 theorem applySteps_loop (F : BodyFn) (P : Project) (g : G) (cfg : Cfg) :
     ∀ (picks : List Nat) (so : Sorter) (s : Sess) (so' : Sorter) (s' : Sess),
-      buildLoop F P g cfg so s picks = .ok (so', s') → applySteps s.w (loopSteps F P g cfg so s picks) = s'.w
+      buildLoop F P g cfg so s picks = .ok (so', s') → applySteps s.w (loopStepsEach F P g cfg so s picks) = s'.w
   | [], so, s, so', s', h => by
     simp only [buildLoop, Except.ok.injEq, Prod.mk.injEq] at h
     obtain ⟨_, rfl⟩ := h
     rfl
   | t :: ts, so, s, so', s', h => by
     unfold buildLoop at h
-    unfold loopSteps
+    unfold loopStepsEach
     split at h
     · cases h
     rename_i h1
@@ -132,9 +132,9 @@ theorem applySteps_loop (F : BodyFn) (P : Project) (g : G) (cfg : Cfg) :
     exact applySteps_loop F P g cfg ts _ _ so' s' h
 
 theorem applySteps_build (F : BodyFn) (P : Project) (cfg : Cfg) (w : World) (picks : List Nat) (r : Result)
-    (h : build F P cfg w picks = .ok r) : applySteps w (buildSteps F P cfg w picks) = r.w := by
+    (h : build F P cfg w picks = .ok r) : applySteps w (buildStepsEach F P cfg w picks) = r.w := by
   unfold build at h
-  unfold buildSteps
+  unfold buildStepsEach
   split at h
   · rename_i hdag
     cases h; simp [hdag]
@@ -163,7 +163,7 @@ theorem lookup_insert_self {κ} [BEq κ] [LawfulBEq κ] (m : List (κ × Nat)) (
     lookup (insert m k v) k = some v := by
   simp [lookup, insert]
 
-theorem lookup_insert_ne {κ} [BEq κ] [LawfulBEq κ] (m : List (κ × Nat)) (k k' : κ) (v : Nat) (h : k' ≠ k) :
+theorem cr_lookup_insert_ne {κ} [BEq κ] [LawfulBEq κ] (m : List (κ × Nat)) (k k' : κ) (v : Nat) (h : k' ≠ k) :
     lookup (insert m k v) k' = lookup m k' := by
   unfold lookup insert
   have hk : (k == k') = false := by simpa using (Ne.symm h)
@@ -225,7 +225,7 @@ structure WF (P : Project) (g : G) : Prop where
   honest : ∀ t ∈ P.tasks, ∀ k, t.beh ≠ .omits k
   noPersist : ∀ t ∈ P.tasks, t.persist = false
 
-theorem stateOf_nv (P : Project) (w : World) (n : Nat) : stateOf P w (nv n) = lookup w.fs n := by
+theorem cr_stateOf_nv (P : Project) (w : World) (n : Nat) : stateOf P w (nv n) = lookup w.fs n := by
   unfold stateOf nv isTaskV
   have h1 : ((2 * n + 1) % 2 == 0) = false := by
     have : (2 * n + 1) % 2 = 1 := by omega
@@ -271,12 +271,12 @@ theorem inv_of_rc {F : BodyFn} {P : Project} {g : G} (hwf : WF P g) (w : World) 
     simp at this
     rw [this.2]
     exact List.getElem_mem _
-  rw [row_eq _ (hwf.prods t ht _ hp), stateOf_nv] at hrow
+  rw [row_eq _ (hwf.prods t ht _ hp), cr_stateOf_nv] at hrow
   rw [hrow, row_eq _ (tv_mem_neighbours g t.id), stateOf_tv P w t.id t (hwf.find t ht)]
   congr 2
   apply List.map_congr_left
   intro d hd
-  rw [row_eq _ (hwf.deps t ht d hd), stateOf_nv]
+  rw [row_eq _ (hwf.deps t ht d hd), cr_stateOf_nv]
 
 end Engine
 end Pytask
@@ -317,15 +317,15 @@ theorem applySteps_onlyRows_other {t : Nat} {st : List Step} (h : OnlyRowsOf t s
     obtain ⟨v, y, rfl⟩ := h s (by simp)
     rw [applySteps_cons, ih (fun s hs => h s (List.mem_cons_of_mem _ hs))]
     simp only [applyStep]
-    apply lookup_insert_ne
+    apply cr_lookup_insert_ne
     intro heq
     exact tv_ne_of_ne hu (by simpa using congrArg Prod.fst heq)
 
-theorem rowSteps_onlyRows (P : Project) (w : World) (t : Nat) (vs : List Nat) : OnlyRowsOf t (rowSteps P w t vs) := by
+theorem rowSteps_onlyRows (P : Project) (w : World) (t : Nat) (vs : List Nat) : OnlyRowsOf t (rowStepsEach P w t vs) := by
   induction vs with
   | nil => intro s hs; cases hs
   | cons v vs ih =>
-    unfold rowSteps
+    unfold rowStepsEach
     cases hst : stateOf P w v with
     | none => intro s hs; cases hs
     | some x =>
@@ -359,8 +359,8 @@ theorem phaseSteps_onlyWrites (F : BodyFn) (P : Project) (g : G) (cfg : Cfg) (s 
   · intro s hs; cases hs
 
 theorem reportSteps_onlyRows (P : Project) (g : G) (cfg : Cfg) (s : Sess) (t : TaskSpec) (r : Raised) :
-    OnlyRowsOf t.id (reportSteps P g cfg s t r) := by
-  unfold reportSteps
+    OnlyRowsOf t.id (reportStepsEach P g cfg s t r) := by
+  unfold reportStepsEach
   split
   · exact rowSteps_onlyRows P s.w t.id _
   · intro s hs; cases hs
@@ -411,12 +411,12 @@ theorem inv_after_rows {F : BodyFn} {P : Project} {g : G} (hwf : WF P g) (w : Wo
       simp at this
       rw [this.2]
       exact List.getElem_mem _
-    rw [row_eq _ (hwf.prods u hu _ hp), stateOf_nv] at hrow
+    rw [row_eq _ (hwf.prods u hu _ hp), cr_stateOf_nv] at hrow
     rw [hrow, row_eq _ (tv_mem_neighbours g u.id), stateOf_tv P _ u.id u (hwf.find u hu)]
     congr 2
     apply List.map_congr_left
     intro d hd
-    rw [row_eq _ (hwf.deps u hu d hd), stateOf_nv]
+    rw [row_eq _ (hwf.deps u hu d hd), cr_stateOf_nv]
 
 end Engine
 end Pytask
@@ -435,7 +435,7 @@ theorem lookup_writeAll_other (c : Nat → Nat) (l : List (Nat × Nat)) (fs : FS
     rw [ih _ (fun pi h => hq pi (List.mem_cons_of_mem _ h))]
     have : (some a.2 == (none : Option Nat)) = false := rfl
     simp only [this, Bool.false_eq_true, if_false]
-    exact lookup_insert_ne _ _ _ _ (Ne.symm (hq a (by simp)))
+    exact cr_lookup_insert_ne _ _ _ _ (Ne.symm (hq a (by simp)))
 
 theorem lookup_writeAll_mem (c : Nat → Nat) (l : List (Nat × Nat)) (fs : FS) (hnd : (l.map (·.1)).Nodup)
     (pi : Nat × Nat) (hpi : pi ∈ l) :
@@ -505,7 +505,7 @@ end Pytask
 namespace Pytask
 namespace Engine
 
-theorem updateStates_fs (P : Project) (g : G) (w : World) (t : Nat) (vs : List Nat) : (updateStates P g w t vs).1.fs = w.fs := by
+theorem cr_updateStates_fs (P : Project) (g : G) (w : World) (t : Nat) (vs : List Nat) : (updateStates P g w t vs).1.fs = w.fs := by
   rw [← applySteps_rows]; exact applySteps_onlyRows_fs (rowSteps_onlyRows P w t vs) w
 
 theorem updateStates_other (P : Project) (g : G) (w : World) (t : Nat) (vs : List Nat) (u x : Nat) (hu : u ≠ t) :
@@ -513,7 +513,7 @@ theorem updateStates_other (P : Project) (g : G) (w : World) (t : Nat) (vs : Lis
   rw [← applySteps_rows]; exact applySteps_onlyRows_other (rowSteps_onlyRows P w t vs) w u x hu
 
 /-- A row written by a completed `update_states_in_database` holds the state the node had then. -/
-theorem updateStates_ok (P : Project) (g : G) (t : Nat) (vs : List Nat) (w : World)
+theorem cr_updateStates_ok (P : Project) (g : G) (t : Nat) (vs : List Nat) (w : World)
     (hok : (updateStates P g w t vs).2 = true) :
     (∀ v ∈ vs, ∃ h, stateOf P w v = some h ∧ lookup (updateStates P g w t vs).1.db (tv t, v) = some h) ∧
     (∀ x, x ∉ vs → lookup (updateStates P g w t vs).1.db (tv t, x) = lookup w.db (tv t, x)) := by
@@ -539,14 +539,14 @@ theorem updateStates_ok (P : Project) (g : G) (t : Nat) (vs : List Nat) (w : Wor
       · intro x hx
         simp only [List.mem_cons, not_or] at hx
         rw [ih'.2 x hx.2]
-        apply lookup_insert_ne
+        apply cr_lookup_insert_ne
         intro heq
         exact hx.1 (by simpa using congrArg Prod.snd heq)
 
 theorem setupImpl_ne_persisted (P : Project) (g : G) (cfg : Cfg) (s : Sess) (t : TaskSpec) (name : String)
     (hp : t.persist = false) : setupImpl P g cfg s t name ≠ .persisted := by
   unfold setupImpl
-  simp only [hp, Bool.false_eq_true, if_false]
+  simp only [hp, Bool.false_and, Bool.false_eq_true, if_false]
   repeat' split
   all_goals simp
 
@@ -603,7 +603,7 @@ theorem rc_protocol {F : BodyFn} {P : Project} {g : G} (hwf : WF P g) (cfg : Cfg
     · left; simp
     · right
       simp only [if_true]
-      obtain ⟨hrows, _⟩ := updateStates_ok P g spec.id (neighbours g spec.id) s1.w hok
+      obtain ⟨hrows, _⟩ := cr_updateStates_ok P g spec.id (neighbours g spec.id) s1.w hok
       intro u hu
       by_cases heq : u = spec
       · subst heq
@@ -613,12 +613,12 @@ theorem rc_protocol {F : BodyFn} {P : Project} {g : G} (hwf : WF P g) (cfg : Cfg
           intro v hv
           obtain ⟨x, h1, h2⟩ := hrows v hv
           rw [h1, h2]
-        rw [row_eq _ (hwf.prods u hu _ (mem_prods_of_mem_zipIdx hpi)), stateOf_nv, hfresh pi hpi,
+        rw [row_eq _ (hwf.prods u hu _ (mem_prods_of_mem_zipIdx hpi)), cr_stateOf_nv, hfresh pi hpi,
           row_eq _ (tv_mem_neighbours g u.id), stateOf_tv P _ u.id u (hwf.find u hu)]
         congr 2
         apply List.map_congr_left
         intro d hd
-        rw [row_eq _ (hwf.deps u hu d hd), stateOf_nv]
+        rw [row_eq _ (hwf.deps u hu d hd), cr_stateOf_nv]
       · have hid : u.id ≠ spec.id := fun hid => heq (wf_id_inj hwf hu hspec hid)
         exact RowsConsistent.congr (fun x => by rw [updateStates_other _ _ _ _ _ _ _ hid, hdb]) (hrc u hu)
   all_goals (right; simp only [processReport]; rw [hdb]; exact hrc)
@@ -632,8 +632,8 @@ namespace Engine
 /-- Lemma B: `Inv` holds after every prefix of the atomic updates of one protocol. -/
 theorem inv_protocol_prefix {F : BodyFn} {P : Project} {g : G} (hwf : WF P g) (cfg : Cfg) (s : Sess) (spec : TaskSpec)
     (hspec : spec ∈ P.tasks) (hrc : RC F P g s.w.db) (k : Nat) :
-    Inv F P g (applySteps s.w ((protocolSteps F P g cfg s spec).take k)) := by
-  unfold protocolSteps
+    Inv F P g (applySteps s.w ((protocolStepsEach F P g cfg s spec).take k)) := by
+  unfold protocolStepsEach
   simp only []
   rw [List.take_append, applySteps_append]
   have hph := phaseSteps_onlyWrites F P g cfg s spec
@@ -652,10 +652,10 @@ theorem inv_protocol_prefix {F : BodyFn} {P : Project} {g : G} (hwf : WF P g) (c
       exact inv_of_rc hwf _ hrc1
 
 theorem loopSteps_crashed (F : BodyFn) (P : Project) (g : G) (cfg : Cfg) (so : Sorter) (s : Sess) (picks : List Nat)
-    (h : s.crashed = true) : loopSteps F P g cfg so s picks = [] := by
+    (h : s.crashed = true) : loopStepsEach F P g cfg so s picks = [] := by
   cases picks with
   | nil => rfl
-  | cons t ts => unfold loopSteps; simp [h]
+  | cons t ts => unfold loopStepsEach; simp [h]
 
 theorem mem_of_find? {P : Project} {t : Nat} {spec : TaskSpec} (h : Project.find? P t = some spec) : spec ∈ P.tasks := by
   unfold Project.find? at h
@@ -664,12 +664,12 @@ theorem mem_of_find? {P : Project} {t : Nat} {spec : TaskSpec} (h : Project.find
 /-- `Inv` after every prefix of the atomic updates of a build loop started with consistent rows. -/
 theorem inv_loop_prefix {F : BodyFn} {P : Project} {g : G} (hwf : WF P g) (cfg : Cfg) :
     ∀ (picks : List Nat) (so : Sorter) (s : Sess), RC F P g s.w.db → ∀ k,
-      Inv F P g (applySteps s.w ((loopSteps F P g cfg so s picks).take k))
+      Inv F P g (applySteps s.w ((loopStepsEach F P g cfg so s picks).take k))
   | [], so, s, hrc, k => by
-    simp only [loopSteps, List.take_nil, applySteps_nil]
+    simp only [loopStepsEach, List.take_nil, applySteps_nil]
     exact inv_of_rc hwf _ hrc
   | t :: ts, so, s, hrc, k => by
-    unfold loopSteps
+    unfold loopStepsEach
     split
     · simp only [List.take_nil, applySteps_nil]; exact inv_of_rc hwf _ hrc
     split
@@ -679,8 +679,8 @@ theorem inv_loop_prefix {F : BodyFn} {P : Project} {g : G} (hwf : WF P g) (cfg :
     rename_i spec hfind
     have hspec := mem_of_find? hfind
     rw [List.take_append, applySteps_append]
-    by_cases hk : k ≤ (protocolSteps F P g cfg s spec).length
-    · have : k - (protocolSteps F P g cfg s spec).length = 0 := by omega
+    by_cases hk : k ≤ (protocolStepsEach F P g cfg s spec).length
+    · have : k - (protocolStepsEach F P g cfg s spec).length = 0 := by omega
       rw [this, List.take_zero, applySteps_nil]
       exact inv_protocol_prefix hwf cfg s spec hspec hrc k
     · rcases rc_protocol hwf cfg s spec hspec hrc with hcr | hrc'
@@ -782,17 +782,29 @@ theorem rowsMatch_after_protocol (F : BodyFn) (P : Project) (g : G) (cfg : Cfg) 
     simp only [hr, processReport, recordStates, hdry, Bool.false_eq_true, if_false, hok, if_true]
   rw [hw]
   intro v hv
-  obtain ⟨x, h1, h2⟩ := (updateStates_ok P g spec.id (neighbours g spec.id) _ hok).1 v hv
+  obtain ⟨x, h1, h2⟩ := (cr_updateStates_ok P g spec.id (neighbours g spec.id) _ hok).1 v hv
   refine ⟨x, ?_, h2⟩
   rw [← h1]
   unfold stateOf
-  rw [updateStates_fs]
+  rw [cr_updateStates_fs]
 
 /-- Steps that leave the neighbourhood of `t` alone: writes to files that are neither a neighbour node of `t` nor `t`'s
 module, and row commits of other tasks. -/
 def StepAvoids (P : Project) (g : G) (t : Nat) : Step → Prop
   | .write n _ => nv n ∉ neighbours g t ∧ ∀ spec, Project.find? P t = some spec → spec.src ≠ n
   | .row u _ _ => u ≠ t
+  | .rows u _ => u ≠ t
+
+theorem lookup_applyRows_other (db : DB) (t : Nat) (rs : List (Nat × Nat)) (u x : Nat) (hu : u ≠ t) :
+    lookup (applyRows db t rs) (tv u, x) = lookup db (tv u, x) := by
+  unfold applyRows
+  induction rs generalizing db with
+  | nil => rfl
+  | cons r rs ih =>
+    rw [List.foldl_cons, ih]
+    apply cr_lookup_insert_ne
+    intro heq
+    exact tv_ne_of_ne hu (by simpa using congrArg Prod.fst heq)
 
 theorem stateOf_write_avoid (P : Project) (g : G) (t : Nat) (w : World) (n c : Nat)
     (h : StepAvoids P g t (.write n c)) (v : Nat) (hv : v ∈ neighbours g t) (hvt : isTaskV v = true → v = tv t) :
@@ -806,9 +818,9 @@ theorem stateOf_write_avoid (P : Project) (g : G) (t : Nat) (w : World) (n c : N
     rw [h2]
     cases hf : Project.find? P t with
     | none => rfl
-    | some spec => exact lookup_insert_ne _ _ _ _ (h.2 spec hf)
+    | some spec => exact cr_lookup_insert_ne _ _ _ _ (h.2 spec hf)
   · simp only [hT, Bool.false_eq_true, if_false]
-    apply lookup_insert_ne
+    apply cr_lookup_insert_ne
     intro heq
     apply h.1
     have : v = nv n := by
@@ -839,7 +851,12 @@ theorem rowsMatch_frame (P : Project) (g : G) (t : Nat) (hT : ∀ v ∈ neighbou
     | row u y z =>
       refine ⟨x, h1, ?_⟩
       simp only [applyStep]
-      rw [lookup_insert_ne _ _ _ _ (by intro heq; exact tv_ne_of_ne hs (by simpa using (congrArg Prod.fst heq).symm))]
+      rw [cr_lookup_insert_ne _ _ _ _ (by intro heq; exact tv_ne_of_ne hs (by simpa using (congrArg Prod.fst heq).symm))]
+      exact h2
+    | rows u rs =>
+      refine ⟨x, h1, ?_⟩
+      simp only [applyStep]
+      rw [lookup_applyRows_other _ _ _ _ _ (Ne.symm hs)]
       exact h2
 
 end Engine
